@@ -10,7 +10,7 @@ from mc.runner import add_violation, h64, new_result
 PROPERTY = "C13"
 LEVEL = "model_checking"
 RULE = (
-    "explicit-state exploration: state = (items applied so far to the rule / each detection item / each field, pipeline state) "
+    "explicit-state exploration (each case also after the same pipeline object processed a previous rule, for conditions on applied items / state): state = (items applied so far to the rule / each detection item / each field, pipeline state) "
     "reached by every history of <= 2 preceding items from {set_state, change_logsource, rename with id m0}; transition = "
     "applying the judged item. The judged item carries a marker transformation (field_name_suffix: fields, field references, "
     "fields list; case upper: string values incl. keywords) and condition groups enumerated as: one group (rule / detection "
@@ -26,7 +26,7 @@ BOUNDS = {"quick": dict(expr_ops=2, pre=2), "thorough": dict(expr_ops=3, pre=2)}
 
 RULE_D = {
     "title": "probe", "logsource": {"category": "process_creation", "product": "windows"}, "tags": ["attack.t1"],
-    "fields": ["f1", "f5"],
+    "fields": ["f1", "f5", "g1"],
     "detection": {
         "sel": {"f1": "a*", "f2": 5, "f3|fieldref": "f1"},
         "flt": {"f1": "b", "f4": None},
@@ -91,7 +91,7 @@ class Model:
     def __init__(self):
         self.product = "windows"
         self.items = [dict(det=d, pos=p, field=f, values=[list(v) for v in vals], applied=set()) for d, p, f, vals in ITEMS]
-        self.fields = ["f1", "f5"]
+        self.fields = ["f1", "f5", "g1"]
         self.state = {}
         self.rule_applied = set()
         self.field_applied = {}
@@ -227,7 +227,7 @@ def has_conditions(groups):
 
 
 # ------------------------------------------------------------------------------------------------ implementation run
-def run_impl(pre, marker, groups):
+def run_impl(pre, marker, groups, prev=False):
     from sigma.processing.pipeline import ProcessingPipeline
     from sigma.rule import SigmaRule
     from sigma.types import SigmaFieldReference, SigmaString
@@ -242,6 +242,17 @@ def run_impl(pre, marker, groups):
     item.update(group_yaml("field_name", groups[2], FN_POOL))
     pd = {"name": "c13", "priority": 1, "transformations": [copy.deepcopy(PRE[p]) for p in pre] + [item]}
     pipe = ProcessingPipeline.from_dict(pd)
+    if prev:  # the same pipeline object processed another rule before (m0-style rename, state, tracking must not carry over)
+        pd_prev = {"title": "prev", "logsource": {"category": "process_creation", "product": "windows"}, "fields": ["f1", "g1"],
+                   "detection": {"sel": {"f1": "a*", "f3|fieldref": "f1"}, "condition": "sel"}}
+        warm = ProcessingPipeline.from_dict({"name": "warm", "priority": 1, "transformations": [copy.deepcopy(PRE[p]) for p in ("ps", "m0")]})
+        warm_items = warm.items
+        saved = pipe.items
+        pipe.items = warm_items + saved  # run the history items once on the previous rule through THIS pipeline object
+        pipe._clear_pipeline(); warm._clear_pipeline(); pipe.set_pipeline()
+        pipe.apply(SigmaRule.from_dict(pd_prev))
+        pipe.items = saved
+        pipe._clear_pipeline(); pipe.set_pipeline()
     rule = SigmaRule.from_dict(copy.deepcopy(RULE_D))
     pipe.apply(rule)
     marked = set()
@@ -334,19 +345,27 @@ def mech(groups, pre, marker, got, exp):
     return "unexplained:" + "+".join(parts) + ":" + ",".join(sorted({t[0] for t in diff}))
 
 
-def judge(res, st, pre, marker, groups):
+def judge(res, st, pre, marker, groups, prev=False):
     from sigma.exceptions import SigmaError
 
-    case = {"pre": list(pre), "marker": marker, "groups": [g if g is None else [g[0], (list(g[1]) if g[0] == "list" else T.print_min(g[1])), *g[2:]] for g in groups]}
+    case = {"prev_rule": prev, "pre": list(pre), "marker": marker, "groups": [g if g is None else [g[0], (list(g[1]) if g[0] == "list" else T.print_min(g[1])), *g[2:]] for g in groups]}
     res["evaluations"] += 1
     st.transition(len(pre) + 1)
     try:
-        got, applied, pd = run_impl(pre, marker, groups)
+        got, applied, pd = run_impl(pre, marker, groups, prev)
     except SigmaError as e:
         add_violation(res, f"sigma-error-on-valid-pipeline:{type(e).__name__}", case, "applies", str(e)[:200])
         return
     except Exception as e:
         add_violation(res, f"crash:{type(e).__name__}", case, "applies", repr(e)[:200])
+        return
+    if prev:  # differential oracle: a pipeline that processed another rule before behaves like a fresh one
+        fresh = run_impl(pre, marker, groups, False)
+        st.state([pre, marker, sorted(got), "prev"])
+        res["outcomes"].add(h64(sorted(got)))
+        res["nontrivial"].add(h64(case))
+        if (got, applied) != fresh[:2]:
+            add_violation(res, "after-previous-rule:differs-from-fresh-pipeline", dict(case, _groups=repr(groups)), [sorted(fresh[0]), fresh[1]], [sorted(got), applied])
         return
     exp, R = run_ref(pre, marker, groups)
     st.state([pre, marker, sorted(got)])
@@ -432,6 +451,9 @@ def run_shard(shard, tier, seed):
             continue
         st.history()
         judge(res, st, pre, marker, groups)
+        if any(g is not None and any(n in ("app_m0", "app_ps", "st_kv", "st_ne") for n in _names(g)) for g in groups) and len(pre) <= 1:
+            st.history()
+            judge(res, st, pre, marker, groups, prev=True)  # same pipeline object after another rule
         if len(res["samples"]) < 2 and groups[2] is not None and groups[2][0] == "expr":
             res["samples"].append({"pre": list(pre), "marker": marker, "field_name_group": T.print_min(groups[2][1])})
     return res
@@ -441,5 +463,5 @@ def replay(case):
     res = new_result()
     st = E.Stats(res)
     groups = eval(case["_groups"])  # repr of plain tuples/lists/strings written by this module
-    judge(res, st, tuple(case["pre"]), case["marker"], groups)
+    judge(res, st, tuple(case["pre"]), case["marker"], groups, case.get("prev_rule", False))
     return res["violations"]
